@@ -373,7 +373,8 @@ def run(tier, seed):
             shards.append(([items], "gen", 2, OPNAMES))
     # deeper, still WITHOUT dedup, over the observations that create / advance persistent copies and iterators: a suspended
     # iterator carries hidden state (its resume point) that no canonical form over the list's own fields can see
-    focus = ["idx0", "idx1", "len", "bool", "listify", "idx-1", "mkcopy", "copy.next", "copy.all", "mkiter", "iter.next", "iter.rest"]
+    focus = ["idx0", "idx1", "len", "bool", "listify", "idx-1", "mkcopy", "copy.next", "copy.all", "mkiter", "iter.next", "iter.rest",
+             "reversed", "eqlist"]
     fdepth = 5 if tier == "quick" else 6
     fsrc = [[], [0], [0, 1], [0, 1, 2], [1, 1, 2]]
     for items in fsrc:
